@@ -85,3 +85,4 @@ Theorem C02_subject_roles : forall k r,
   end.
 Proof. exact subject_roles. Qed.
 Print Assumptions C02_subject_roles.
+Print Assumptions C02_kind_names.
